@@ -185,7 +185,7 @@ pub fn minimise_case(case: &Case, fails: &mut dyn FnMut(&Case) -> bool, budget: 
             }
             // tokens
             let Some(Body::Text { text }) = best.world.files.get(&n).cloned() else { continue };
-            if text.len() > 4000 {
+            if text.len() > 20000 {
                 continue;
             }
             let toks: Vec<String> = split_keep_ws(&text);
